@@ -5,6 +5,7 @@
 (*                    NextIsoDay; every day must be well formed; for the    *)
 (*                    fixed-offset calendars it must equal the definition   *)
 (*   Cal.Rebuild      from the fields of the current day -> the same day    *)
+(*   Cal.Conflict     month and monthCode that disagree -> RangeError          *)
 (*   Cal.WithCalendar the ISO date is unchanged, the calendar is the target *)
 (*   Cal.Id           spelling variants behave like the lower-case form;    *)
 (*                    a reported identifier is lower-case and idempotent    *)
@@ -86,6 +87,21 @@ RebuildStep == /\ E.op = "Cal.Rebuild"
                /\ (~RebuildOK => Report(l, E.op, ClsRebuild, IF RebuildChained THEN RebuildExpected(cur) ELSE "session-chain-broken", E.out))
                /\ UNCHANGED <<cur, prev, hi, leaps, edir, hist, last, ids, lens>>
 
+(* ---------------- Cal.Conflict ---------------- *)
+\* the current day's year, monthCode and day together with a month number that is NOT the current day's ordinal month: within one year every
+\* ordinal month has exactly one code (WalkRule), so the two designations name different months and the record is a RangeError under either
+\* overflow (constrain clamps a single field, it never settles a disagreement between two) - also when the number is the one written inside
+\* the code (M07 is the eighth month of a Hebrew leap year)
+ConflictChained == /\ cur # Nil /\ A.cal = cur.cal /\ A.n = cur.n /\ A.day = cur.day /\ HasK("year") /\ A.year = cur.year
+                   /\ HasK("mc") /\ A.mc = cur.mc /\ HasK("month") /\ A.month # cur.month
+ConflictCls == A.cal \o "/conflict/" \o (IF cur # Nil /\ McWF(cur.mc) /\ A.month = McNum(cur.mc) THEN "number-inside-the-code" ELSE "neighbouring-month")
+ConflictOK == IF ~ConflictChained THEN FALSE
+              ELSE IF ~InBounds(cur) \/ ~McWF(cur.mc) THEN E.out.kind \in {"ok", "range", "type"}
+              ELSE E.out = ErrRange
+ConflictStep == /\ E.op = "Cal.Conflict"
+                /\ (~ConflictOK => Report(l, E.op, ConflictCls, IF ConflictChained THEN ErrRange ELSE "session-chain-broken", E.out))
+                /\ UNCHANGED <<cur, prev, hi, leaps, edir, hist, last, ids, lens>>
+
 (* ---------------- Cal.WithCalendar ---------------- *)
 WcChained == cur # Nil /\ A.from = cur.cal /\ A.n = cur.n /\ A.iso = IsoOf(cur.n)
 WcExpected == Ok([iso |-> IsoOf(cur.n), id |-> Join(Lower(A.to)), cmp |-> 0])
@@ -137,7 +153,7 @@ TInit == /\ l = 1 /\ cur = Nil /\ prev = Nil /\ hi = 0 /\ leaps = 0 /\ edir = 0 
          /\ ids = Empty /\ lens = Empty
 Reset == /\ E.op = "reset" /\ cur' = Nil /\ last' = None /\ leaps' = 0 /\ edir' = 0
          /\ UNCHANGED <<prev, hi, hist, ids, lens>>
-TNext == l <= NEv /\ l' = l + 1 /\ (Reset \/ DayStep \/ RebuildStep \/ WcStep \/ WcDtStep \/ WdStep \/ IdStep)
+TNext == l <= NEv /\ l' = l + 1 /\ (Reset \/ DayStep \/ RebuildStep \/ ConflictStep \/ WcStep \/ WcDtStep \/ WdStep \/ IdStep)
 TSpec == TInit /\ [][TNext]_tvars
 
 \* evaluated at every step: the current day is an in-range ISO day
